@@ -41,7 +41,8 @@ RemoveLastOnTrace(rec) ==
 AllPlain(rec) == \A i \in 1..Len(rec.in.shapes) : rec.in.shapes[i] = "plain"
 HasOutside(rec) == \E i \in 1..Len(rec.in.shapes) : rec.in.shapes[i] \in {"dotdot", "abs"}
 HasSub(rec) == \E i \in 1..Len(rec.in.shapes) : rec.in.shapes[i] = "sub"
-Faulted(rec) == rec.in.fault.kind \notin {"none", "stale"}     \* a stale destination file is not a failure
+Faulted(rec) == rec.in.fault.kind \notin {"none", "stale", "xdev"}     \* a stale destination file is not a failure; a
+                                        \* destination on another filesystem is not one either, but a MOVE may refuse it
 
 \* nothing outside the control file's directory and the destination is read into the destination,
 \* overwritten, moved or deleted
@@ -69,7 +70,9 @@ Judge(rec) ==
                 => StateOf(rec.after.src, rec.ctl) = "full:ctl",
             "a move failed but the control file is no longer at its source">>,
           <<(AllPlain(rec) /\ Faulted(rec)) => rec.err, "a step failed but no error was returned">>,
-          <<(AllPlain(rec) /\ ~Faulted(rec) /\ ~partial) => ~rec.err, "plain upload without faults failed">>,
+          <<(AllPlain(rec) /\ ~Faulted(rec) /\ ~partial /\ ~(rec.in.fault.kind = "xdev" /\ op = "move")) => ~rec.err, "plain upload without faults failed">>,
+          <<(rec.err /\ rec.in.fault.kind = "xdev") => \A f \in files : StateOf(rec.after.src, f) = KeyOf(rec, f),
+            "a move to another filesystem was refused but the source files are no longer all in place">>,
           <<(~rec.err /\ op \in {"copy", "move"} /\ ~partial) =>
                 (rec.handle = "dst" /\ \A f \in files : StateOf(rec.after.dst, f) = KeyOf(rec, f)),
             "after success the handle does not point at the destination or a file differs from the original">>,
@@ -108,7 +111,9 @@ JudgeSeq(rec) ==
        ELSE V(FALSE, "op-sequence", "after operation " \o ToString(first) \o " (" \o ops[first].op \o
               ") of a sequence on one handle the directories or the handle are not what Copy/Move/Remove should leave")
 
-JudgeAny(rec) == IF rec.ev = "upseq" THEN JudgeSeq(rec) ELSE Judge(rec)
+JudgeAny(rec) == IF rec.ev = "upseq" THEN JudgeSeq(rec)
+                 ELSE IF "skipped" \in DOMAIN rec THEN V(TRUE, "aux", "")        \* no second filesystem on this machine
+                 ELSE Judge(rec)
 
 Init == l \in 1..Len(Trace) /\ verdict = Pending
 Next == verdict.class = "pending" /\ verdict' = JudgeOrCrash(Trace[l], JudgeAny) /\ UNCHANGED l
